@@ -1,4 +1,9 @@
 import Gittuf.Props.C11
+import Gittuf.Props.C11b
 #print axioms Gittuf.World.C11_threshold_enforced
 #print axioms Gittuf.World.C11_ff_enforced
 #print axioms Gittuf.World.C11_exhaustive_adds_only
+#print axioms Gittuf.World.verifyObject_mono
+#print axioms Gittuf.World.C11_entry_monotone
+#print axioms Gittuf.World.C11_entry_monotone_B
+#print axioms Gittuf.walkSane_of_B
